@@ -583,6 +583,7 @@ type pending struct {
 	head    string
 	o, twin []string
 	hasTwin bool
+	nested  bool // a case of the nested-router family (CorrNested.ncase)
 }
 
 func obsStrings(os []obs) []string {
@@ -650,6 +651,137 @@ func (r *runner) run(k kind, budget int, capfail bool, seq []action, useTestCtx 
 	} else {
 		r.pending = body
 		r.router.ServeHTTP(under, req)
+	}
+	return out
+}
+
+// ---------------------------------------------------------------- nested routers
+//
+// A fox Router served THROUGH another fox Context's Writer(): the child's recorder is stacked on the parent's
+// recorder. The calls of one request are tagged with who makes them: a handler / middleware of the parent router
+// on the parent's Context (before and after the child is mounted) or the child router's handler on the child's
+// Context. After every call the PARENT's Status/Written/Size are read (what the parent's Logger, Recovery or
+// metrics middleware see), the calls that reached the real underlying writer, the header changes, and for the
+// child's calls the child's own answers as well.
+
+// mounts: how the child gets the parent's Context.Writer(), and how the parent's Context is obtained
+var mounts = []string{
+	"parent.Handle(WrapH(child))", "parent.Handle(WrapF(child.ServeHTTP))", "child.ServeHTTP(c.Writer(),c.Request())",
+	"NewTestContext(c.Writer(),c.Request())", "parent=NewTestContext;WrapH(child)(c)", "parent=NewTestContext;child.ServeHTTP(c.Writer(),c.Request())",
+}
+
+type nobs struct {
+	o     obs // the PARENT's answers, what the call returned, log and header delta at the real writer
+	child bool
+	cst   int
+	cw    bool
+	csz   int
+}
+
+func (o nobs) coq() string {
+	if !o.child {
+		return "NP (" + o.o.coq() + ")"
+	}
+	return fmt.Sprintf("NC (%s) %s %s %d", o.o.coq(), zlit(o.cst), hx.Bool(o.cw), o.csz)
+}
+func (o nobs) String() string {
+	if !o.child {
+		return "parent" + o.o.String()
+	}
+	return fmt.Sprintf("parent%v child{Status=%d Written=%v Size=%d}", o.o, o.cst, o.cw, o.csz)
+}
+
+type nrunner struct {
+	parent, child *fox.Router
+	pre, post     func(c fox.Context) // the parent's middleware, around the mounted child
+	childBody     func(c fox.Context) // the child's route handler
+	direct        func(c fox.Context) // the parent's /d route handler
+}
+
+func newNRunner() *nrunner {
+	n := &nrunner{}
+	child, err := fox.New()
+	hx.Fatal(err)
+	_, err = child.Handle(http.MethodGet, "/*{rest}", func(c fox.Context) { n.childBody(c) })
+	hx.Fatal(err)
+	parent, err := fox.New(fox.WithMiddleware(func(next fox.HandlerFunc) fox.HandlerFunc {
+		return func(c fox.Context) {
+			n.pre(c)
+			next(c)
+			n.post(c)
+		}
+	}))
+	hx.Fatal(err)
+	_, err = parent.Handle(http.MethodGet, "/h/*{any}", fox.WrapH(child))
+	hx.Fatal(err)
+	_, err = parent.Handle(http.MethodGet, "/f/*{any}", fox.WrapF(child.ServeHTTP))
+	hx.Fatal(err)
+	_, err = parent.Handle(http.MethodGet, "/d/*{any}", func(c fox.Context) { n.direct(c) })
+	hx.Fatal(err)
+	n.parent, n.child = parent, child
+	return n
+}
+
+// run serves one request on a fresh underlying writer of kind k: the parent's handlers make the calls pre, the
+// mounted child's handler the calls mid, then the parent's handlers the calls post.
+func (n *nrunner) run(k kind, budget int, capfail bool, pre, mid, post []action, mount int) []nobs {
+	c := &core{h: http.Header{}, budget: budget, capfail: capfail}
+	under := k.mk(c)
+	var out []nobs
+	var pctx fox.Context
+	phase := func(ctx fox.Context, child bool, acts []action) {
+		for _, a := range acts {
+			before := len(c.log)
+			ct0, hadCT0 := hdrVal(c.h, "Content-Type")
+			loc0, hadLoc0 := hdrVal(c.h, "Location")
+			below := under // what Unwrap must return
+			if child {
+				below = pctx.Writer()
+			}
+			cnt, cls := perform(ctx, below, a)
+			pw := pctx.Writer()
+			o := nobs{o: obs{status: pw.Status(), written: pw.Written(), size: pw.Size(), n: cnt, cls: cls}, child: child}
+			if child {
+				cw := ctx.Writer()
+				o.cst, o.cw, o.csz = cw.Status(), cw.Written(), cw.Size()
+			}
+			o.o.log = append(o.o.log, c.log[before:]...)
+			if ct1, had := hdrVal(c.h, "Content-Type"); had && (!hadCT0 || ct1 != ct0) {
+				o.o.hdr = append(o.o.hdr, [2]string{"HContentType", ct1})
+			}
+			if loc1, had := hdrVal(c.h, "Location"); had && (!hadLoc0 || loc1 != loc0) {
+				o.o.hdr = append(o.o.hdr, [2]string{"HLocation", loc1})
+			}
+			out = append(out, o)
+		}
+	}
+	n.pre = func(ctx fox.Context) { pctx = ctx; phase(ctx, false, pre) }
+	n.post = func(ctx fox.Context) { phase(ctx, false, post) }
+	n.childBody = func(ctx fox.Context) { phase(ctx, true, mid) }
+	path := []string{"/h/x", "/f/x", "/d/x", "/d/x", "/t/x", "/t/x"}[mount]
+	req := httptest.NewRequest(http.MethodGet, path, nil)
+	switch mount {
+	case 0, 1:
+		n.parent.ServeHTTP(under, req)
+	case 2:
+		n.direct = func(pc fox.Context) { n.child.ServeHTTP(pc.Writer(), pc.Request()) }
+		n.parent.ServeHTTP(under, req)
+	case 3:
+		n.direct = func(pc fox.Context) {
+			_, tc := fox.NewTestContext(pc.Writer(), pc.Request())
+			n.childBody(tc)
+		}
+		n.parent.ServeHTTP(under, req)
+	case 4:
+		_, tc := fox.NewTestContext(under, req)
+		n.pre(tc)
+		fox.WrapH(n.child)(tc)
+		n.post(tc)
+	case 5:
+		_, tc := fox.NewTestContext(under, req)
+		n.pre(tc)
+		n.child.ServeHTTP(tc.Writer(), tc.Request())
+		n.post(tc)
 	}
 	return out
 }
@@ -738,16 +870,16 @@ func main() {
 		extra[i].name = fmt.Sprintf("x%d", i)
 	}
 
-	mism, known := "mismatches_cur", "Definition known_c14_readfrom_accounting := Eval vm_compute in known_cur cases.\nPrint known_c14_readfrom_accounting.\n"
+	mism, known := "xmismatches_cur", "Definition known_c14_readfrom_accounting := Eval vm_compute in xknown_cur cases.\nPrint known_c14_readfrom_accounting.\n"
 	if behaviour == "fixed" {
-		mism, known = "mismatches_fixed", ""
+		mism, known = "xmismatches_fixed", ""
 	}
 	cs := &hx.Cases{
-		Header: "From FoxBase Require Import Bytes.\nFrom FoxC14 Require Import Types Spec Model ModelFixed Corr.\nOpen Scope Z_scope.\n" + defs.String(),
-		Type:   "case",
+		Header: "From FoxBase Require Import Bytes.\nFrom FoxC14 Require Import Types Spec Model ModelFixed Nested Corr CorrNested.\nOpen Scope Z_scope.\n" + defs.String(),
+		Type:   "xcase",
 		Footer: "Definition mism := Eval vm_compute in " + mism + " cases.\nPrint mism.\n" +
-			"Definition viol := Eval vm_compute in spec_violations cases.\nPrint viol.\n" +
-			"Definition oof := Eval vm_compute in fuel_outs cases.\nPrint oof.\n" + known,
+			"Definition viol := Eval vm_compute in xspec_violations cases.\nPrint viol.\n" +
+			"Definition oof := Eval vm_compute in xfuel_outs cases.\nPrint oof.\n" + known,
 	}
 	st := &hx.Stats{Rule: "a case = (underlying writer kind, byte budget, capability failure flag, call sequence) run on the real recorder, plus the same sequence on the kind without ReaderFrom/StringWriter when the kind has them; " +
 		"non-trivial = at least one call was refused or cut short (an error class other than nil, a WriteHeader the recorder did not forward, or fewer bytes accepted than offered); distinct = distinct (kind, budget, capfail, sequence)"}
@@ -1056,6 +1188,134 @@ func main() {
 	}
 	scopes = append(scopes, fmt.Sprintf("ReadFrom, Stream(200), Stream(201), WriteHeader(103);Stream(200) x %d sources (plain/1-byte chunks/eager EOF/bytes.Reader/strings.Reader/bytes.Buffer/io.LimitedReader; sizes 0, 1, 11; failing or not) and zero-length String/Blob x codes {200,201,204,404}, each followed by WriteHeader(500), x 4 kinds x budgets {inf,2}", len(srcs)))
 
+	// 8. nested routers, every run: the same kinds of call sequences made by the handler of a CHILD fox router that a
+	//    handler of a PARENT fox router serves through its own Context.Writer() (WrapH / WrapF routes, direct
+	//    child.ServeHTTP(c.Writer(), r), NewTestContext(c.Writer(), r); parent Context from ServeHTTP or
+	//    NewTestContext), optionally after calls by the parent's middleware and always followed by what a Recovery /
+	//    logging middleware of the parent does (WriteHeader(500), a trailing Write). Observed: the PARENT's
+	//    Status/Written/Size, the child's own, and everything that reached the real writer (CorrNested.v).
+	nr := newNRunner()
+	tag := func(child bool, as []action) []string {
+		out := make([]string, len(as))
+		for i, a := range as {
+			if child {
+				out[i] = "CC (" + a.coq() + ")"
+			} else {
+				out[i] = "PC (" + a.coq() + ")"
+			}
+		}
+		return out
+	}
+	nobsStrings := func(os []nobs) []string {
+		out := make([]string, len(os))
+		for i, o := range os {
+			out[i] = o.coq()
+		}
+		return out
+	}
+	addN := func(ki int, budget int, capfail bool, pre, mid, post []action, mount int, stream string) {
+		k := kinds[ki]
+		key := fmt.Sprintf("nested|%s|%d|%v|%v|%v|%v|%d", k.name, budget, capfail, pre, mid, post, mount)
+		if seen[key] {
+			return
+		}
+		seen[key] = true
+		total := len(pre) + len(mid) + len(post)
+		o := nr.run(k, budget, capfail, pre, mid, post, mount)
+		runs++
+		var to []nobs
+		if k.twin >= 0 {
+			to = nr.run(kinds[k.twin], budget, capfail, pre, mid, post, mount)
+			runs++
+		}
+		b := "None"
+		if budget >= 0 {
+			b = fmt.Sprintf("(Some %d%%nat)", budget)
+		}
+		calls := append(append(tag(false, pre), tag(true, mid)...), tag(false, post)...)
+		pend = append(pend, pending{head: fmt.Sprintf("mkncase %s %s %s %s", k.name, b, hx.Bool(capfail), hx.List(calls)),
+			o: nobsStrings(o), twin: nobsStrings(to), hasTwin: k.twin >= 0, nested: true})
+		var hs strings.Builder
+		fmt.Fprintf(&hs, "NESTED ROUTERS mount=%s underlying=%s budget=%d capfail=%v :", mounts[mount], k.name, budget, capfail)
+		if len(o) != total || (to != nil && len(to) != total) {
+			fmt.Fprintf(&hs, " [only %d of %d calls were made: the child's handler or the parent's middleware did not run]", len(o), total)
+		}
+		i := 0
+		for ph, as := range [][]action{pre, mid, post} {
+			for _, a := range as {
+				fmt.Fprintf(&hs, " [%s] %v", []string{"parent", "child", "parent"}[ph], a)
+				if i < len(o) {
+					fmt.Fprintf(&hs, " => %v", o[i])
+					if to != nil && i < len(to) && fmt.Sprint(to[i]) != fmt.Sprint(o[i]) {
+						fmt.Fprintf(&hs, " [without fast paths: %v]", to[i])
+					}
+				}
+				hs.WriteString(";")
+				i++
+			}
+		}
+		humans = append(humans, hs.String())
+		st.Count("stream:" + stream)
+		st.Count("kind:" + k.name)
+		st.Count(fmt.Sprintf("budget:%d", budget))
+		st.Count("nested-mount:" + mounts[mount])
+		nt := false
+		for _, x := range o {
+			if x.o.cls != "ENil" {
+				nt = true
+			}
+		}
+		if nt {
+			nontrivial++
+		}
+	}
+	recov := []action{{op: "WriteHeader", code: 500}, {op: "Write", data: "!"}}
+	npres := [][]action{nil, {{op: "WriteHeader", code: 103}}, {{op: "Write", data: "pp"}}, {{op: "WriteHeader", code: 404}}, {{op: "Hijack"}}}
+	nn := 0
+	for ai, a := range all { // every action of the API as the child's only call, every kind
+		for ki := range kinds {
+			for _, b := range []int{-1, 2} {
+				addN(ki, b, false, nil, []action{a}, recov, (ai+ki+nn)%len(mounts), "nested-single")
+				nn++
+			}
+		}
+		for _, ki := range []int{2, 5, 8} { // after the parent's middleware already used its writer
+			for pi := 1; pi < len(npres); pi++ {
+				addN(ki, -1, false, npres[pi], []action{a}, recov, (ai+ki+pi)%len(mounts), "nested-after-parent")
+			}
+		}
+		for _, ki := range []int{6, 8} {
+			addN(ki, -1, true, nil, []action{a}, recov, (ai+ki)%len(mounts), "nested-capfail")
+		}
+	}
+	for _, ki := range []int{1, 6, 7} { // every pair over the 14-action alphabet as the child's calls
+		for _, b := range []int{-1, 2} {
+			enum(alpha, 2, nil, func(seq []action) {
+				addN(ki, b, false, nil, seq, recov, nn%len(mounts), "nested-pairs")
+				nn++
+			})
+		}
+	}
+	nnrand := 400
+	if tier == "thorough" {
+		nnrand = 4000
+	}
+	for i := 0; i < nnrand; i++ {
+		rseq := func(lo, hi int) []action {
+			s := make([]action, rnd.Range(lo, hi))
+			for j := range s {
+				s[j] = ract()
+			}
+			return s
+		}
+		b := -1
+		if rnd.Pct(50) {
+			b = rnd.Intn(13)
+		}
+		addN(rnd.Intn(len(kinds)), b, rnd.Pct(15), rseq(0, 2), rseq(1, 8), rseq(0, 3), rnd.Intn(len(mounts)), "nested-random")
+	}
+	scopes = append(scopes, fmt.Sprintf("nested routers (child router served through the parent's Context.Writer(), %d ways to mount): each of the %d API actions as the child's call x 10 kinds x budgets {inf,2}, after 4 parent preludes x 3 kinds, with failing capabilities x 2 kinds; all 14^2 child pairs x 3 kinds x budgets {inf,2}; each followed by the parent's WriteHeader(500);Write; %d random pre/child/post sequences", len(mounts), len(all), nnrand))
+
 	// observations that occur often get a name in the header (keeps the case files small:
 	// coqc spends its time elaborating the literals, not evaluating the model)
 	freq := map[string]int{}
@@ -1093,6 +1353,11 @@ func main() {
 			term = "let o := " + ren(p.o) + " in " + p.head + " o (Some o)"
 		default:
 			term = p.head + " " + ren(p.o) + " (Some " + ren(p.twin) + ")"
+		}
+		if p.nested {
+			term = "N2 (" + term + ")"
+		} else {
+			term = "S1 (" + term + ")"
 		}
 		cs.Add(term, humans[i])
 	}
